@@ -15,6 +15,26 @@ CLAIMED = {
    note="Trusted: Lean kernel; axioms propext/Classical.choice/Quot.sound; the C harness and the sampled correspondence; parent pointers checked at run time only.",
    technique="Lean 4 invariant proof by induction over histories + differential correspondence (exhaustive small shapes)",
    design="§7 C16"),
+ "C05": dict(
+   text="Lean 4 theorems (Ivy/Props/C05.lean) prove for the model of iv_timer.c's store (1-based binary heap with back indices in a radix tree "
+        "modelled by capacity/truncation, pull_up/push_down incl. the NULL-tail test, growth and shrink tests) that HeapInv (order, slot<->index "
+        "bijection, NULL tail, capacity bookkeeping) holds initially and after every register/unregister of any slot at any population, that each "
+        "operation changes membership and expiry of no other timer, that the root is a minimum, and that iv_run_timers' batch is exactly the "
+        "registered timers not after `now`, in non-decreasing expiry order. Tied to the current iv_timer.c by differential runs through the public "
+        "API with the full slot array and every back index compared, incl. sweeps across 128 and 16384 (thorough: 40000) in both directions.",
+   note="Trusted: Lean kernel; standard axioms; the harness and sampled correspondence; interior radix nodes modelled by capacity only; expires not modified while registered.",
+   technique="Lean 4 heap invariant proof (unbounded population) + differential correspondence with white-box slot dump",
+   design="§7 C05"),
+ "C17": dict(
+   text="Lean 4 theorems (Ivy/Props/C17.lean) prove for the model of iv_fd_pump_pump (both transfer modes) and every sequence of syscall results "
+        "(partial counts, EAGAIN, EINTR chains, EOF, errors, FIONREAD values): src = sink ++ buffer is invariant (no loss, duplication, reordering), "
+        "return value 0 iff EOF seen and drained, -1 iff an I/O error was consumed, else 1; requested bands equal the state; read never issued with "
+        "count 0, after EOF or when full; shutdown exactly once, only when requested, only after the drain; done stays done. Tied to the current "
+        "iv_fd_pump.c by replaying the log of the real file (white-box include with scripted read/write/splice/ioctl) through the model, which must "
+        "predict every call, set_bands, return value and buffer ownership.",
+   note="Trusted: Lean kernel; standard axioms; the scripted-syscall harness; kernel contract (read/write return 1..count); allocation failure not modelled.",
+   technique="Lean 4 state-machine invariant proof over all syscall-result sequences + log-replay correspondence",
+   design="§7 C17"),
 }
 NOT_YET = "check not built yet in this round; planned per DESIGN.md §7 (Lean model + theorems + correspondence)"
 
